@@ -1007,3 +1007,163 @@ def no_dedup_on_insert(ctx, funcs, rule='SINK', exempt=('duplicates', 'unique', 
                                   f"dropped without notice, so the result no longer holds what went in",
                                   key=f"{rule}|{fi.qualname}|dedup|{coll.id}", where=loc(fi, c))
     return n
+
+
+def total_lookups(ctx, funcs, rule='EXC'):
+    """`TABLE[key]` where TABLE is a constant dict of the package and `key` is
+    computed from the text a regex group matched: the look-up must succeed for
+    EVERY text the group can match (there is no KeyError handler and no
+    membership test).  Members of the group's language are enumerated from the
+    pattern (all alternatives; repeats taken lo and lo+1 times), pushed
+    through the key computation (upper / lower / strip / replace / re.sub with
+    constant arguments) and looked up; a member whose key is missing is a
+    concrete text that raises KeyError in the middle of a parse."""
+    from .. import rx
+    from ..fold import is_unknown
+    import re as _re
+    n = 0
+    for fi in funcs:
+        menv = ctx.fold.module_env(fi.module.name)
+        for node in walk_local(fi.node):
+            if not (isinstance(node, ast.Subscript) and isinstance(node.ctx, ast.Load) and isinstance(node.value, ast.Name)):
+                continue
+            table = menv.get(node.value.id)
+            if not (isinstance(table, dict) and table and all(isinstance(k, str) for k in table)):
+                continue
+            if any(isinstance(x, ast.Name) and isinstance(x.ctx, ast.Store) and x.id == node.value.id for x in walk_local(fi.node)):
+                continue
+            # handled KeyError / membership test?
+            p, handled = getattr(node, '_parent', None), False
+            while p is not None and p is not fi.node:
+                if isinstance(p, ast.Try) and any(h.type is None or any(
+                        nm in norm(h.type) for nm in ('KeyError', 'LookupError', 'Exception')) for h in p.handlers):
+                    handled = True
+                p = getattr(p, '_parent', None)
+            from ..srcmodel import facts_at
+            if handled or any(f" in {node.value.id}" in txt for _e, txt, _p in facts_at(node)):
+                continue
+            construct = f"{fi.qualname}: `{norm(node)[:50]}` finds a key for every text the group can match"
+            # single-assignment locals
+            defs = {}
+            for st in walk_local(fi.node):
+                if isinstance(st, ast.Assign) and len(st.targets) == 1 and isinstance(st.targets[0], ast.Name):
+                    defs.setdefault(st.targets[0].id, []).append(st.value)
+            src = {}    # (match var, group) found while evaluating
+
+            class _Unsup(Exception):
+                pass
+
+            def ev(e, w, depth=0):
+                if depth > 12:
+                    raise _Unsup('depth')
+                if isinstance(e, ast.Constant):
+                    return e.value
+                if isinstance(e, ast.Name):
+                    if e.id in defs and len(defs[e.id]) == 1:
+                        return ev(defs[e.id][0], w, depth + 1)
+                    raise _Unsup(f"name {e.id}")
+                if isinstance(e, ast.Subscript) and isinstance(e.value, ast.Name) and isinstance(e.slice, ast.Constant) \
+                        and isinstance(e.slice.value, str):
+                    src[(e.value.id, e.slice.value)] = True
+                    return w
+                if isinstance(e, ast.Call) and isinstance(e.func, ast.Attribute):
+                    f = e.func
+                    if f.attr == 'group' and isinstance(f.value, ast.Name) and len(e.args) == 1 \
+                            and isinstance(e.args[0], ast.Constant) and isinstance(e.args[0].value, str):
+                        src[(f.value.id, e.args[0].value)] = True
+                        return w
+                    if dotted(f) == 're.sub' and len(e.args) == 3:
+                        pat, rep = ev(e.args[0], w, depth + 1), ev(e.args[1], w, depth + 1)
+                        x = ev(e.args[2], w, depth + 1)
+                        if not all(isinstance(v, str) for v in (pat, rep, x)):
+                            raise _Unsup('re.sub args')
+                        return rx.Lang(pat, 0).sub(rep, x)
+                    base = ev(f.value, w, depth + 1)
+                    if isinstance(base, str):
+                        args = [ev(a, w, depth + 1) for a in e.args]
+                        if f.attr in ('upper', 'lower', 'strip', 'lstrip', 'rstrip', 'title', 'capitalize', 'casefold') \
+                                and all(isinstance(a, str) for a in args) and len(args) <= 1:
+                            return getattr(base, f.attr)(*args)
+                        if f.attr == 'replace' and len(args) == 2 and all(isinstance(a, str) for a in args):
+                            return base.replace(*args)
+                    raise _Unsup(f"call .{f.attr}")
+                if isinstance(e, ast.JoinedStr):
+                    out = ''
+                    for part in e.values:
+                        if isinstance(part, ast.Constant):
+                            out += str(part.value)
+                        elif isinstance(part, ast.FormattedValue) and part.format_spec is None and part.conversion == -1:
+                            out += str(ev(part.value, w, depth + 1))
+                        else:
+                            raise _Unsup('format spec')
+                    return out
+                raise _Unsup(type(e).__name__)
+
+            try:
+                ev(node.slice, 'x')
+            except (_Unsup, AnalysisError) as e:
+                continue            # key does not come from a match group in a way that is followed here
+            if len(src) != 1:
+                continue
+            (mvar, gname), = src.keys()
+            # which regex produced the match object?
+            rvs = []
+            if mvar in fi.params():
+                for f2 in ctx.repo.funcs.values():
+                    for c in ast.walk(f2.node):
+                        if isinstance(c, ast.Call) and any(isinstance(a, ast.Name) and a.id == fi.node.name for a in c.args):
+                            cand = None
+                            if dotted(c.func) == 're.sub' and c.args:
+                                cand = c.args[0]
+                            elif isinstance(c.func, ast.Attribute) and c.func.attr in ('sub', 'subn'):
+                                cand = c.func.value
+                            if cand is not None:
+                                try:
+                                    v = fold_in_func(ctx, f2, cand)
+                                except AnalysisError:
+                                    v = None
+                                if v is not None and hasattr(v, 'pattern'):
+                                    rvs.append(v)
+            else:
+                for st in walk_local(fi.node):
+                    if isinstance(st, (ast.Assign, ast.For)):
+                        tgt = st.targets[0] if isinstance(st, ast.Assign) else st.target
+                        val = st.value if isinstance(st, ast.Assign) else st.iter
+                        if isinstance(tgt, ast.Name) and tgt.id == mvar and isinstance(val, ast.Call) \
+                                and isinstance(val.func, ast.Attribute) and val.func.attr in ('search', 'match', 'fullmatch', 'finditer'):
+                            try:
+                                v = fold_in_func(ctx, fi, val.func.value)
+                            except AnalysisError:
+                                v = None
+                            if v is not None and hasattr(v, 'pattern'):
+                                rvs.append(v)
+            if not rvs:
+                ctx.undecided(rule, construct, f"the regex behind `{mvar}` is not resolved")
+                continue
+            n += 1
+            for rv in rvs:
+                gf = group_facts(ctx, rv)
+                if gname not in gf:
+                    continue
+                try:
+                    words = rx.enumerate_words(gf[gname].node, rv.flags)
+                except AnalysisError as e:
+                    ctx.undecided(rule, construct, f"group language not enumerated ({e})")
+                    continue
+                if rv.flags & _re.I:
+                    words = list(dict.fromkeys(words + [w.lower() for w in words] + [w.upper() for w in words]))
+                L = lang(ctx, rv)
+                missing = []
+                for w in words:
+                    try:
+                        k = ev(node.slice, w)
+                    except (_Unsup, AnalysisError):
+                        break
+                    if isinstance(k, str) and k not in table:
+                        missing.append((w, k))
+                ctx.check(not missing, rule, construct, f"{len(words)} members of group {gname!r} of {rv.name or 'the pattern'} tried",
+                          (f"group {gname!r} of {rv.name or 'the pattern'} can match {missing[0][0]!r}, which gives the key "
+                           f"{missing[0][1]!r}; `{node.value.id}` has only {sorted(table)[:8]}: KeyError escapes from the parse "
+                           f"({len(missing)} of {len(words)} enumerated texts fail)") if missing else '',
+                          key=f"{rule}|{fi.qualname}|lookup|{node.value.id}", where=loc(fi, node))
+    return n
